@@ -84,6 +84,14 @@ theorem applied_clears_intermediate_state (cfg : Cfg) (d : Disk) (sts : List Sta
     (starts cfg d sts).1.Clean :=
   starts_clean cfg sts d hd
 
+/-- Reachability: every disk produced from a fresh database by any history of starts (cancelled,
+crashed, failed writes, any registries) satisfies the exclusion invariant that `resume_same_result`
+assumes of its initial disk. -/
+theorem reachable_disk_clean (cfg : Cfg) (sts : List Start) : (starts cfg freshDisk sts).1.Clean :=
+  starts_clean cfg sts freshDisk (fun j h => by
+    have : freshDisk.cur = 0#64 := rfl
+    rw [this, SV.has_zero] at h; cases h)
+
 /-- Applied bits are never cleared. -/
 theorem applied_is_permanent (cfg : Cfg) (d : Disk) (sts : List Start) (j : Nat)
     (h : d.cur.has j = true) : (starts cfg d sts).1.cur.has j = true :=
@@ -249,6 +257,11 @@ theorem blocktx_preserves_nonempty (cfg : BlockTx.Cfg) (hA : cfg.overwriteMigrat
   · rcases hm.2 he with m | u
     · right; rw [← he]; exact m.2.2.2
     · left; exact u.2.2.2
+
+/-- Reachability: the database as the previous layout wrote it satisfies `Inv` (so do, by
+`blocktx_preserves_nonempty`, all images reachable from it). -/
+theorem blocktx_previous_layout_inv (orig : Orig) (h : Nat) (db : Db) (ha : AllOld orig h db) : Inv orig h db :=
+  ha.inv
 
 /-- PARTIAL (pinned migration). What is missing from `blocktx_preserves`: (a) interruptions are
 restricted to cancellation (`Graceful`: no crash — after a crash an already migrated range can lie
